@@ -6,3 +6,12 @@ import OdmlModel.Props.C18
 #print axioms C18.cache_monotone
 #print axioms C18.failed_fetch_writes_nothing
 #print axioms C18.no_exception
+#print axioms C18.join_names_started_thread
+#print axioms C18.progress
+#print axioms C18.waits_for_decreases_rank
+#print axioms C18.measure_decreases
+#print axioms C18.effective_steps_bounded
+#print axioms C18.fair_schedule_terminates
+#print axioms C18.maximal_run_completes
+#print axioms C18.load_none_iff_unloadable
+#print axioms C18.maximal_run_requested_loaded_or_failed
